@@ -8,6 +8,7 @@ package main
 import (
 	"bytes"
 	"encoding/binary"
+	"encoding/hex"
 	"fmt"
 	"sort"
 	"strings"
@@ -165,6 +166,9 @@ type trace struct {
 	tags   map[string]bool
 	deep   bool
 	noDisc map[int32]bool // heights the wallet can no longer detach (see probeDeepReorg)
+	// scripts of outputs the harness asked for (to tell them from change)
+	requested map[string]bool
+	problem   string
 }
 
 var epoch = time.Unix(1700000000, 0)
@@ -184,7 +188,7 @@ func newTrace(wseed int, deep bool) (*trace, error) {
 		return nil, err
 	}
 	t := &trace{env: env, w: env.W, params: env.Params, intern: map[chainhash.Hash]int64{},
-		tags: map[string]bool{}, deep: deep, noDisc: map[int32]bool{}}
+		tags: map[string]bool{}, deep: deep, noDisc: map[int32]bool{}, requested: map[string]bool{}}
 	t.ch = simchain.New(env.Params)
 	t.clk = clock.NewTestClock(epoch)
 	t.w.TxStore.VerifSetClock(t.clk)
@@ -273,7 +277,14 @@ func (t *trace) ownScript(scope int, acct uint32, internal bool) ([]byte, error)
 	if err != nil {
 		return nil, err
 	}
-	return txscript.PayToAddrScript(addr)
+	pk, err := txscript.PayToAddrScript(addr)
+	if err != nil {
+		return nil, err
+	}
+	if t.L.table[hex.EncodeToString(pk)] == nil {
+		return nil, fmt.Errorf("harness: wallet address %v is outside the independent derivation table", addr)
+	}
+	return pk, nil
 }
 
 func (t *trace) coinSel(s int) *coin {
@@ -404,6 +415,25 @@ func (t *trace) buildOuts(outs []fundOut) ([]*wire.TxOut, error) {
 // ---- operations ---------------------------------------------------------
 
 func (t *trace) exec(o op) error {
+	switch o.K {
+	case "fund", "spend":
+		if o.Conf {
+			t.tags["op:"+o.K+"_confirmed"] = true
+		} else {
+			t.tags["op:"+o.K+"_unconfirmed"] = true
+		}
+	case "reorg":
+		t.tags[fmt.Sprintf("op:reorg_depth_%d", min(o.Depth, 3))] = true
+	case "mine":
+		if o.N >= 50 {
+			t.tags["op:mine_to_maturity"] = true
+		} else {
+			t.tags["op:mine"] = true
+		}
+	case "req":
+	default:
+		t.tags["op:"+o.K] = true
+	}
 	switch o.K {
 	case "fund", "spend":
 		tx := wire.NewMsgTx(2)
@@ -688,10 +718,23 @@ func (t *trace) judge(site string, rv reqView, tx *wire.MsgTx, signed bool) {
 }
 
 func (t *trace) recordPublished(tx *wire.MsgTx) {
+	t.checkChange(tx)
 	lt := t.L.add(tx, -1, true)
 	lt.published = true
 	for _, in := range tx.TxIn {
 		t.L.published[in.PreviousOutPoint] = lt
+	}
+}
+
+// checkChange: every output the wallet added to a transaction (its change)
+// must be a script the independent derivation table knows, or the ledger
+// would not see the change as a wallet coin (a harness limit, not a finding).
+func (t *trace) checkChange(tx *wire.MsgTx) {
+	for _, out := range tx.TxOut {
+		if t.requested[hex.EncodeToString(out.PkScript)] || t.L.table[hex.EncodeToString(out.PkScript)] != nil {
+			continue
+		}
+		t.problem = fmt.Sprintf("harness: output script %x of a wallet transaction is outside the derivation table", out.PkScript)
 	}
 }
 
@@ -733,6 +776,7 @@ func (t *trace) request(rs *reqSpec) error {
 			s = t.extScript(p.Kind)
 		}
 		outs = append(outs, wire.NewTxOut(p.Amt, s))
+		t.requested[hex.EncodeToString(s)] = true
 	}
 	// explicit selection / caller-supplied inputs
 	pick := func(sels []int) []wire.OutPoint {
@@ -789,6 +833,7 @@ func (t *trace) request(rs *reqSpec) error {
 	// the ledger's opinion of the selection, before the call
 	selBad := map[string]bool{}
 	dupSel := false
+	outsideFilter := false
 	{
 		seen := map[wire.OutPoint]bool{}
 		for _, o := range sel {
@@ -805,7 +850,10 @@ func (t *trace) request(rs *reqSpec) error {
 					}
 				}
 				if !ok {
-					why = append(why, "filtered")
+					// outside the caller's own filter: not one of the
+					// property's eligibility conditions, so not judged by
+					// the oracle (the model comparison covers it)
+					outsideFilter = true
 				}
 			}
 			for _, w := range why {
@@ -958,7 +1006,10 @@ func (t *trace) request(rs *reqSpec) error {
 	for _, w := range ro.Bad {
 		t.tags["explicit_bad:"+w+":"+ro.Outcome] = true
 	}
-	if len(sel) > 0 && len(ro.Bad) == 0 {
+	if outsideFilter {
+		ro.Note = append(ro.Note, "selection_outside_filter")
+		t.tags["explicit_outside_filter:"+ro.Outcome] = true
+	} else if len(sel) > 0 && len(ro.Bad) == 0 {
 		t.tags["explicit_valid:"+ro.Outcome] = true
 	}
 	clean := true
@@ -1085,7 +1136,15 @@ func (t *trace) fundPsbtWithInputs(rs *reqSpec, rv reqView, scopePtr *waddrmgr.K
 	return nil
 }
 
+// finalizeP2PKH (flag -psbt-p2pkh): also finalize and verify PSBT packets with
+// P2PKH inputs, to reproduce the recorded observation (FinalizePsbt attaches a
+// witness to a P2PKH input and reports success).
+var finalizeP2PKH bool
+
 func (t *trace) hasLegacyInput(tx *wire.MsgTx) bool {
+	if finalizeP2PKH {
+		return false
+	}
 	for _, in := range tx.TxIn {
 		if c := t.L.byOp[in.PreviousOutPoint]; c != nil && classOf(c.pk) == "p2pkh" {
 			return true
